@@ -3,11 +3,13 @@ package main
 // C18 — numeric aggregates equal the reference folds over the numeric elements (SX path normal form + numeric folding).
 
 import (
+	"fmt"
 	"go/ast"
 	"go/constant"
 	"go/token"
 	"go/types"
 	"math"
+	"os"
 	"strings"
 )
 
@@ -27,6 +29,9 @@ func init() {
 				c.R.Floor("C18.R6", runAs(c, "C18.R6", c14Run, func(o *Obligation) bool { return strings.Contains(o.Construct, "(*list).Reduce") }), 2)
 			}},
 			{ID: "C18.R7", Doc: "the numbers folded are the numbers given: parseVal and the wrapper constructors store ints and floats unchanged (= C12.R1)", Run: func(c *Ctx) { c.R.Floor("C18.R7", runAs(c, "C18.R7", c12R1, nil), 10) }},
+			{ID: "C18.R8", Doc: "the aggregates fold through ego.Ego(): every container is registered with itself or its derived value, never with another container (= C19.R2: Init discipline, no whole-struct copies)", Run: func(c *Ctx) {
+				c.R.Floor("C18.R8", runAs(c, "C18.R8", c19R2, nil), 6)
+			}},
 			{ID: "C18.R5", Doc: "PURE: no aggregate writes the list", Run: func(c *Ctx) {
 				n := pureRule(c, "C18.R5", []string{"(*list).Sum", "(*list).Prod", "(*list).Min", "(*list).Max", "(*list).Avg", "(*list).IntSum", "(*list).IntProd", "(*list).IntMin", "(*list).IntMax"})
 				c.R.Floor("C18.R5", n, 9)
@@ -549,6 +554,9 @@ func c18MinMax(c *Ctx, fd *ast.FuncDecl, name string, smaller, intFam bool) {
 			if o.Pos() >= fl.Pos() && o.Pos() < fl.End() {
 				continue
 			}
+			if t0, had := foldEnv[o]; had && t0 != nil && sameTerm(t0, t) {
+				continue // a captured constant the reducer does not touch (a mode switch of a shared helper)
+			}
 			if isConstBoolTerm(t, true) && types.Identical(o.Type().Underlying(), types.Typ[types.Bool]) {
 				here = o
 			}
@@ -583,6 +591,14 @@ func c18MinMax(c *Ctx, fd *ast.FuncDecl, name string, smaller, intFam bool) {
 		return
 	}
 	good := len(paths) == 2
+	if os.Getenv("ANYCHECK_DEBUG") != "" {
+		fmt.Fprintf(os.Stderr, "C18.R3 %s: present=%s@%d boundRecv=%v\n", name, present.Name(), present.Pos(), boundRecv != nil)
+		for _, p := range paths {
+			for _, cd := range p.Conds() {
+				fmt.Fprintf(os.Stderr, "   cond %s %T\n", key(cd.T), cd.T)
+			}
+		}
+	}
 	for _, p := range paths {
 		conds := p.Conds()
 		if len(conds) != 1 || p.End != "return" || len(p.Vals) != 1 {
@@ -611,7 +627,7 @@ func c18MinMax(c *Ctx, fd *ast.FuncDecl, name string, smaller, intFam bool) {
 		// the flag starts false
 		if t, ok := foldEnv[present]; ok {
 			good = isConstBoolTerm(simplify(t), false) // its value when the fold starts
-		} else if boundRecv != nil {
+		} else if _, isLit := stripAddr(boundRecv).(TLit); boundRecv != nil && isLit {
 			// a field of the struct the reducer is bound to, not written since the struct was made: what its literal gives it
 			good = false
 			b := boundRecv
@@ -734,4 +750,11 @@ func c18Avg(c *Ctx) {
 		}
 	}
 	ob.Check(good, "Avg = self.Sum() / float64(count of the receiver)", "Avg is not Sum()/float64(Count()) of the receiver")
+}
+
+func stripAddr(t Term) Term {
+	if a, ok := t.(TAddr); ok {
+		return a.X
+	}
+	return t
 }
